@@ -213,7 +213,7 @@ def check_case(case, ctx):
             d = tempfile.mkdtemp(prefix="lmmv_c11_", dir=_tmp())
             m = base.mk_sqlite(case["graph"], d, latlon=ref.latlon, plan=case.get("load_plan"))
         else:
-            m = base.mk_inmem(case["graph"], latlon=ref.latlon)
+            m = base.mk_inmem(case["graph"], latlon=ref.latlon, steps=case.get("build_steps"))
         try:
             nn, ne, N, E, long_edge = check_query(case, m, ref, ctx, classes)
         finally:
@@ -224,6 +224,8 @@ def check_case(case, ctx):
             shutil.rmtree(d, ignore_errors=True)
     if case.get("load_plan"):
         classes.append("sqlite-loaded-call-by-call")
+    if case.get("build_steps"):
+        classes.append("inmem-queried-while-growing")
     if long_edge:
         classes.append("long-edge-through-disc")
     if ref.exact_nodes:
@@ -298,6 +300,14 @@ def _case(draw, tier):
                     loc=[oy + unit * q[0], ox + unit * q[1]], radius=None if r is None else r * unit)
     else:
         case.update(metric="planar", graph=g, loc=[q[0], q[1]], radius=r)
+    if backend == "inmem" and len(case["graph"]) >= 2 and case["radius"] is not None and gen.chance(draw, 3):
+        # the map is used (same radius, around one of its first nodes) while it is still being built
+        k = draw(st.integers(1, len(case["graph"]) - 1))
+        gg = case["graph"]
+        if gen.chance(draw, 5):
+            gg = sorted(gg, key=lambda n: abs(n[1][0]))  # the nodes nearest to the equator first (lat/lon: the others are added later)
+            case["graph"] = gg
+        case["build_steps"] = {"first": k, "warm": [[list(gg[draw(st.integers(0, k - 1))][1]), case["radius"]]]}
     if backend == "sqlite" and gen.chance(draw, 4):
         # the SQLite map is loaded call by call (per-call flags, repeated nodes/edges, re-index calls) instead of in bulk
         case["load_plan"] = draw(gen.load_plan(case["graph"]))
